@@ -30,6 +30,9 @@ pub fn replay() -> Option<&'static Replay> {
 /// Set by C15, whose subject is exactly whether an output depends on what happened before.
 pub static HISTORY_IS_THE_SUBJECT: std::sync::atomic::AtomicBool = std::sync::atomic::AtomicBool::new(false);
 
+/// Set by C01, whose real ECDSA signers are randomised.
+pub static RANDOMISED_SIGNER: std::sync::atomic::AtomicBool = std::sync::atomic::AtomicBool::new(false);
+
 /// Re-evaluate a violating case twice; identical signatures are required before it is believed.
 fn confirm(first: Outcome, again: &dyn Fn() -> Outcome) -> Outcome {
     if first.findings.is_empty() && first.known.is_empty() {
@@ -50,6 +53,15 @@ fn confirm(first: Outcome, again: &dyn Fn() -> Outcome) -> Outcome {
                 // hasher seeds), so a verdict that changes when the same state is evaluated again in the same process is the
                 // subject depending on what the thread did before - the very thing the property excludes
                 out.findings = vec![Finding::new("REPEAT-VERDICT-DEPENDS-ON-HISTORY", "the same state evaluated again", format!("evaluating the same state again in the same process gave another verdict ({:?}, then {:?})", s0, sigs(&o)))];
+                return out;
+            }
+            if RANDOMISED_SIGNER.load(std::sync::atomic::Ordering::Relaxed) {
+                // C01 drives real ECDSA keys, whose signatures are randomised: a defect that depends on a byte of the signature
+                // shows in one evaluation out of many. The oracle is a function of the recorded bytes (what the signer returned,
+                // what the artefact carries, what three verifiers say about them), so the first observation stands
+                for f in out.findings.iter_mut() {
+                    f.detail = format!("{} (seen in one of several evaluations of this state: the signature is randomised; then {:?})", f.detail, sigs(&o));
+                }
                 return out;
             }
             out.machinery.push(format!("harness nondeterminism: violation signatures differ between evaluations of the same state ({:?} vs {:?})", s0, sigs(&o)));
